@@ -43,7 +43,7 @@ impl Spec {
     }
 }
 
-pub const LOCALES: &[&str] = &["en", "fr", "de", "ja", "ar", "ru", "pt", "pt-PT", "th"];
+pub const LOCALES: &[&str] = &["en", "fr", "de", "ja", "ar", "ru", "pt", "pt-PT", "th", "es", "es-419", "es-MX"];
 
 /// One value of every shape; an op uses the accessor that fits its formatter kind.
 #[derive(Debug, Clone)]
